@@ -118,7 +118,7 @@ class Context:
     def add(self, ob):
         """Register an obligation (dedupe by name+goal text)."""
         key = (ob.name, ob.goal.sexpr() if hasattr(ob.goal, "sexpr") else str(ob.goal),
-               len(ob.pc))
+               len(ob.pc) if ob.view != "custom" else 0)
         if key in self._names:
             return
         self._names.add(key)
